@@ -190,7 +190,7 @@ def step (line : String) : String :=
   | ["flt", k, run, motifs, gc, s, onlyLast] =>
     let c := parseCfg k run motifs gc
     if c.accepted then "1 " ++ showBool (c.valid (charsOf s) (parseBool onlyLast)) else "0 -"
-  | ["cap", a, tolExp, maxIter, vecs] =>
+  | ["cap", a, tolExp, maxIter, vecs, _seed] =>
     let starts := (vecs.splitOn ";").map fun v => ((v.splitOn ",").map parseRat).toArray
     match approximateCapacity (parseAcc a) (1 / (10 ^ parseNatD tolExp : Nat)) (parseNatD maxIter) starts with
     | none => "err OUT_OF_FUEL"
